@@ -362,6 +362,13 @@ package jrpc2
 //@   modifies map(s.call)
 //@   ensures[C08:removed-only-when-settled] forall(k string, old(in(s.call, k)) && !in(s.call, k) ==> chansends(old(lookup(s.call, k)).ch) >= 1)
 //@   ensures[C09:members] len(result) <= len(next) && forall(i int, 0 <= i && i < len(result) ==> result[i] != nil)
+//@   ghostvar ksrc ArrInt
+//@   at call.append#1 ghostset ksrc = store(ksrc, len(keep), rangeindex + 1)
+//@   at call.append#2 ghostset ksrc = store(ksrc, len(keep), rangeindex + 1)
+//@   ensures[C01:kept-members-in-arrival-order] forall(i int, j int, 0 <= i && i < len(result) && j == ksrc[i] ==> 0 <= j && j < len(next) && result[i] == old(next[j])) && forall(i1 int, i2 int, 0 <= i1 && i1 < i2 && i2 < len(result) ==> ksrc[i1] < ksrc[i2])
+//@   loop 1 invariant forall(i int, 0 <= i && i < len(keep) ==> 0 <= ksrc[i] && ksrc[i] <= rangeindex)
+//@   loop 1 invariant forall(i int, j int, 0 <= i && i < len(keep) && j == ksrc[i] ==> keep[i] == old(next[j]))
+//@   loop 1 invariant forall(i1 int, i2 int, 0 <= i1 && i1 < i2 && i2 < len(keep) ==> ksrc[i1] < ksrc[i2])
 //@   ensures[C09:drop-unmatched] s.allowP ==> forall(i int, 0 <= i && i < len(result) ==> reqShaped(result[i]))
 //@   ensures[C09:inv] Server_mu_inv(s)
 //@   loop 1 invariant Server_mu_inv(s) && len(keep) <= rangeindex + 1
